@@ -8,7 +8,7 @@ Real code driven (in-process, nothing of it is re-implemented):
   * AirPlayStream.play_url (local file -> web server, takeover, try/finally).
 Collaborators are replaced by ledger-recording fakes: the per-protocol
 SetupData.connect/close (fake ProtocolMethods in pyatv.PROTOCOLS), http.create_session
-(ClientSessionManager), raop.http_connect / airplay.http_connect, StreamClient,
+(ClientSessionManager), raop.http_connect / airplay.http_connect, the I/O of StreamClient (its initialize/close are real),
 open_source, StaticFileWebServer, AirPlayPlayer.  Every fake call is a numbered *point*;
 a plan makes point k fail (an Exception), be cancelled (real task.cancel(), delivered
 as CancelledError at the fake's await) or park (overlap scenarios).  Release calls that
@@ -135,19 +135,61 @@ def make_http_connect(world, kind):
 
 
 def make_stream_client(world, info):
-    class FakeStreamClient:
-        """Stands for raop.stream_client.StreamClient (initialize opens UDP endpoints)."""
+    """The REAL StreamClient (initialize / close / listener / info are the code under
+    test); only its I/O is faked: the loop's create_datagram_endpoint (control + timing
+    sockets), the RTSP session, the AirPlay v1/v2 protocol object, and the two long
+    running calls set_volume / send_audio (C16 covers streaming itself)."""
+    from pyatv.protocols.raop.protocols import TimingServer
+    from pyatv.protocols.raop.stream_client import StreamClient
 
+    class FakeSocket:
+        @staticmethod
+        def getsockname():
+            return ("127.0.0.1", 4000)
+
+    class FakeTransport(Obj):
+        def close(self):
+            self.open = False
+
+        def get_extra_info(self, key):
+            return FakeSocket()
+
+        def sendto(self, data, addr=None):
+            pass
+
+    class FakeLoop:
+        async def create_datagram_endpoint(self, factory, **kwargs):
+            proto = factory()
+            kind = "timing" if isinstance(proto, TimingServer) else "ctrl"
+            await world.plan.point("udp_endpoint:" + kind)
+            transport = world.add(kind, FakeTransport())
+            if hasattr(proto, "connection_made"):
+                proto.connection_made(transport)
+            else:
+                proto.transport = transport
+            return transport, proto
+
+    class FakeRtsp:
+        def __init__(self, connection):
+            self.connection = connection
+
+        async def info(self):
+            await world.plan.point("rtsp.info")
+            return dict(info)
+
+    class FakeProtocol:
+        async def setup(self, timing_port, control_port):
+            await world.plan.point("protocol.setup")
+
+        def teardown(self):
+            pass
+
+    class HalfRealStreamClient(StreamClient):
         def __init__(self, rtsp, context, protocol, settings):
-            self.rtsp, self.context = rtsp, context
-            self.listener = None
-            self.info = dict(info)
-            self.res = None
-
-        async def initialize(self, properties):
-            await world.plan.point("client.initialize")
-            self.context.sample_rate, self.context.channels, self.context.bytes_per_channel = 44100, 2, 2
-            self.res = world.add("sclient", Obj())
+            super().__init__(rtsp, context, protocol, settings)
+            self.loop = FakeLoop()
+            self.rtsp = FakeRtsp(rtsp.connection)
+            self._protocol = FakeProtocol()
 
         async def set_volume(self, volume):
             await world.plan.point("client.set_volume")
@@ -156,14 +198,7 @@ def make_stream_client(world, info):
         async def send_audio(self, source, metadata=None, /, volume=None):
             await world.plan.point("client.send_audio")
 
-        def stop(self):
-            pass
-
-        def close(self):
-            if self.res:
-                self.res.open = False
-
-    return FakeStreamClient
+    return HalfRealStreamClient
 
 
 def make_open_source(world):
